@@ -269,7 +269,8 @@ pub fn corrupt(msg: &Msg, op: u8, pos: u32, byte: u8) -> Option<Corrupted> {
                     let k = c[pick(c.len())];
                     let (_, s, _) = data[k].2;
                     let mut b = r.bytes.clone();
-                    b[s + 2] = b'x';
+                    // a letter, a sign, a blank or a dot where a length digit must be
+                    b[s + 2] = [b'x', b'+', b'-', b' ', b'.', b'+'][(byte % 6) as usize];
                     Some(Corrupted { bytes: b, prefix: r.tokens[..data_tok(k)].to_vec(), partial: None, what: "malformed block length", run_level: false })
                 }
             }
